@@ -193,8 +193,13 @@ class ShapeCheck:
         self.ctx.settle(o, PROVED, 'syntactic')
 
     def fail(self, oid, text, fn=None, kind='ensures'):
-        # refuted under the (satisfiable) path condition: the solver supplies the concrete names
-        self.ctx.prove(f'{self.tag}:{oid}', kind, fn or self.fn, self.p.child(), False, text, witness=self.wit)
+        """a structural mismatch (holds for every content of this path).  It is reported as a violation only with
+        a failing input: the native replay of this shape (default names, then the name corpus) must reproduce it;
+        otherwise it stays undecided (the path may be infeasible)."""
+        o = self.ctx.new(f'{self.tag}:{oid}', kind, fn or self.fn, text)
+        o.replay = {'shape': self.w.shape['name'], 'names': {}}
+        o.structural = True
+        self.ctx.settle(o, UNDECIDED, 'syntactic', 'structural mismatch; to be confirmed by native replay')
 
     def prove_eq(self, oid, a, b, text, fn=None):
         a, b = norm(a) if isinstance(a, (str, StrT)) else a, norm(b) if isinstance(b, (str, StrT)) else b
@@ -552,7 +557,7 @@ CHECKS = {
     'C04': ['outcome', 'multiclient', 'constructor'],
     'C07': ['outcome', 'constructor', 'accessors', 'multiclient'],
     'C09': ['outcome', 'facilities'],
-    'C10': ['outcome', 'final_construct'],
+    'C10': ['outcome', 'final_construct', 'constructor'],
     'C13': ['outcome'],
     'C12': ['outcome', 'support'],
     'C08': ['outcome', 'hash'],
@@ -585,11 +590,33 @@ def run_one_shape(ctx: Ctx, prop, shape):
             sc.support_and_hash(want_hash='hash' in todo, want_support='support' in todo,
                                 want_comments='comments' in todo)
         if 'hash' in todo:
-            sites = [s for s in I.set_iteration_sites]
-            if sites:
-                sc.fail('omega', f'the build observes the iteration order of a set: {sites[:3]}', kind='frame')
-            else:
-                sc.ok('omega', 'no set iteration order is observed during the build')
+            # omega-independence (2-safety): the same symbolic build under another set-iteration oracle must
+            # produce the same files
+            sites = sorted({s[0] + '@' + (s[1][-1] if s[1] else '?') for s in I.set_iteration_sites})
+            orders = (1,) if ctx.tier == 'quick' else (1, 2, 3, 4, 5)
+            for om in orders:
+                I.omega = om
+                try:
+                    runs2 = G.run_shape(I, shape)
+                finally:
+                    I.omega = 0
+                other = [r for r in runs2 if r.kind == 'return' and tuple(r.p.decisions) == tuple(br.p.decisions)]
+                if not other:
+                    if all(r.kind != 'return' for r in runs2):
+                        sc.fail(f'omega{om}', f'under another set iteration order the build fails (sites: {sites})',
+                                kind='frame')
+                    continue
+                f1 = ops.seq_lit_items(br.value.fields['files'].term)
+                f2 = ops.seq_lit_items(other[0].value.fields['files'].term)
+                for i, (a, b) in enumerate(zip(f1, f2)):
+                    same = ops.canon(a.fields['contents']) == ops.canon(b.fields['contents']) and \
+                        ops.canon(a.fields['filename']) == ops.canon(b.fields['filename'])
+                    if same:
+                        sc.ok(f'omega{om}.file{i}', f'file {i} is independent of the set iteration order '
+                                                    f'(sites observed: {len(sites)})')
+                    else:
+                        sc.fail(f'omega{om}.file{i}', f'file {i} depends on the iteration order of a set '
+                                                      f'(sites: {sites})', kind='frame')
     if not runs:
         o = ctx.new(f'{shape["name"]}:no-path', 'vacuity', 'dznpy.adv_shell.Builder.build', 'at least one feasible path')
         ctx.settle(o, ERROR, 'z3', 'no feasible path: the world of this shape is contradictory')
@@ -764,6 +791,10 @@ def name_variants(shape):
     v2['copyright'] = 'line one\r\nline two\x0bthree\u2028four'
     v2['creator_info'] = '\n  indented\x0c\nlast'
     variants.append(v2)
+    v3 = {}
+    for pi, _ in enumerate(shape['ports']):
+        v3[f'port{pi}'] = ['power', 'Power', 'pOwer', 'POWER'][pi % 4]
+    variants.append(v3)
     return variants
 
 
@@ -775,6 +806,8 @@ def native_search(ctx, o, prop):
     for n in names:
         if n not in by_name:
             continue
-        for v in name_variants(by_name[n]):
+        for vi, v in enumerate(name_variants(by_name[n])):
+            if vi == 3 and prop not in ('C08', 'C12', 'C13'):
+                continue        # case-only differences make boundary member names collide: only for text-level props
             inputs.append({'shape': n, 'names': v, 'property': prop})
     return {'script': 'native/replay_gen.py', 'input': {'search': inputs}} if inputs else None
